@@ -263,42 +263,23 @@ CLAIMS = {
         "technique": "Lean 4 round-trip theorem on a model of the st edit-list reader + differential st stream + independent expected-callback oracle",
     },
     "C17": {
-        "text": "Oracle on the implementation: for the structural corpus and generated programs x sets of registered parsers (regexes that "
-                "never match or can only match the empty string, stream parsers that read 0-40 runes ahead and unread half, a parser "
-                "reporting a zero-length match) x identity load/store hooks x identity detail rewriters, value, process text, "
-                "Matched/Rest, variables and final seed are identical to the run with nothing registered and no handler runs; a "
-                "matching term E<n> in 29 operand positions (parentheses, lists, calls, indexes, ternary, short-circuit, templates, "
-                "loops, functions, computed values, dice operands, st values) calls the handler once per evaluation of the operand "
-                "with exactly the matched text and groups, on each of two evaluations of the compiled program, wherever a number "
-                "would be accepted; a handler that reuses and mutates one result object shows the VM took copies. Lean: the PEG-engine "
-                "model treats the custom-dice predicate as failing without side effect when nothing is registered "
-                "(no_parser_pred_false); the engine model with that predicate is tied to the parser by the peg stream. One defect "
-                "(custom term inside look-ahead-guarded constructs) found this way was repaired.",
-        "note": TB + "PARTIAL: the matching case (PrepareCustomDice / ConsumeCustomDice / CommitCustomDice with a registered parser) is "
-                     "not yet part of the Lean engine model; it is decided by the oracle only. Regular-expression matching (Go regexp) "
-                     "and the behaviour of host-supplied stream parsers are outside any model.",
-        "technique": "metamorphic / call-log oracle on the implementation with registered parsers and identity hooks; Lean lemma on the engine model's custom-dice predicate (partial)",
-    },
-    "C02": {
-        "text": "compile_correct (DS/Props/C02.lean, from run_compile in DS/Proofs/FragCompile.lean): for EVERY source tree of the fragment "
-                "{numbers, all 15 binary operators, unary minus, the ternary, ||, &&} the code the compiler emits, run by the VM model's "
-                "dispatch loop, ends with exactly the value — or exactly the error — and the heap that the definitional, syntax-directed "
-                "semantics evalF prescribes; run_compile is the compositional form (from ANY frame and surrounding stack a "
-                "sub-expression's code pushes its value on the untouched stack and continues behind itself: jump offsets and stack "
-                "balance of every composition, by induction over the tree, unbounded depth). Ties: compile stream (the theorem's "
-                "compiler = the real compiler's bytecode dump, instruction by instruction, on printed trees); vm stream (dispatch loop = "
-                "rollvm.go). For the whole core language a definitional big-step semantics over SOURCE TREES (DS/Model/RefEval.lean: "
-                "evaluation order, control flow incl. break/continue, calls with dynamic scoping, computed values, templates, "
-                "containers by reference, dice under min/max mode) is compared by the ref stream with the real parser+VM on generated "
-                "trees printed by an independent printer that follows the published grammar's precedence levels with random legal "
-                "whitespace and redundant parentheses, in sequences of 1-3 programs on one VM (value / error-ness per program, "
-                "variables after the sequence). Eight parser/compiler defects found this way were repaired.",
-        "note": TB + "The theorem covers the expression fragment without variables; statements, loops, functions, computed values, "
-                     "templates and containers are decided by the ref stream against the definitional semantics (a partial def, "
-                     "executable, not a proof object). Primitive operator tables are shared between the definitional semantics and "
-                     "the VM model (they are C01's totality theorems' and the vm stream's subject). The printer is the statement of "
-                     "the grammar's precedence and of where white space is legal.",
-        "technique": "Lean 4 compiler-correctness theorem (fragment, induction over source trees) + translation-validation stream + definitional-semantics differential stream",
+        "text": "Parser side, on the PEG-engine model extended with the custom-dice trio (PrepareCustomDice predicate / ConsumeCustomDice / "
+                "CommitCustomDice) over an abstract matcher `custom : offset -> matched length`: never_matching_transparent (parsers that "
+                "never match leave the whole parse — success, offset, ParserData, emission trace — as with nothing registered; any "
+                "grammar, input, fuel), no_match_pred_false, prepare_outside_lookahead / prepare_in_lookahead (the position moves only "
+                "inside a look-ahead), consume_uses_pending, commit_emits_once / commit_without_match (exactly one typeCustomDice per "
+                "committed match); the C16 gating theorems and the C03 purity theorem hold for ANY matcher. Tie: peg-custom stream — the "
+                "real parser with RegCustomDice(pattern) vs the model given the pattern's match lengths, on a matching term in 43 "
+                "operand / tail positions and spliced into generated programs. Run-time side, oracle on the implementation: with "
+                "never-matching regexes (incl. empty-matching ones), stream parsers that read 0-40 runes ahead and unread half, a "
+                "zero-length match, identity load/store hooks and identity detail rewriters, value / process text / Matched / Rest / "
+                "variables / final seed equal the plain run and no handler runs; a matching term calls the handler once per "
+                "evaluation with exactly the matched text and groups on each of two evaluations, wherever a number is accepted; a "
+                "handler that reuses and mutates one result object shows the VM took copies. One defect found this way was repaired.",
+        "note": TB + "The run-time clauses (handler count and arguments, copy semantics, identity hooks and rewriters) are decided by the "
+                     "oracle, not by a theorem: the VM model marks dice.custom and host callbacks `unsup`. Regular-expression matching "
+                     "(Go regexp) and host-supplied stream parsers are outside any model: the matcher is a parameter of the theorems.",
+        "technique": "Lean 4 lemmas on the PEG-engine model with an abstract custom matcher + emission-trace stream with registered regexes + call-log / metamorphic oracle",
     },
 }
 
